@@ -194,16 +194,22 @@ def part2(res, flat_len):
         nvals = [norm(v) for v in vals]
         if nvals[0] == nvals[2]:
             vals = vals[:2]
-        for owner in ("components", "autonomous"):
-            def fresh():
+        for owner in ("components", "autonomous", "components/sub"):
+            subt = None
+            if owner.endswith("/sub"):
+                if tname not in ("int", "str", "bools", "struct"):
+                    continue
+                owner, subt = "components", "cfg"
+
+            def fresh(owner=owner, subt=subt):
                 env.advance_us(10)
-                cls, _ = build_class(tname)
+                cls, _ = build_class(tname, sub=subt)
                 objs = [cls(), cls()]
                 names = [env.fresh_name("left"), env.fresh_name("right")]
                 for o, nm in zip(objs, names):
                     setup(o, owner, nm)
-                pubs = [publish(typed_topic(inst, expected_key(owner, nm, None, "val"), tname), tname) for nm in names]
-                subs = [subscribe(typed_topic(inst, expected_key(owner, nm, None, "val"), tname), tname, default) for nm in names]
+                pubs = [publish(typed_topic(inst, expected_key(owner, nm, subt, "val"), tname), tname) for nm in names]
+                subs = [subscribe(typed_topic(inst, expected_key(owner, nm, subt, "val"), tname), tname, default) for nm in names]
                 return objs, pubs, subs
 
             def apply(op, objs, pubs, model):
